@@ -122,7 +122,6 @@ func targetSQLParse(dname string, mk func() dialect.Dialect) func([]byte) hx.Vs 
 				_ = sqlparser.String(stmt)
 			}
 			_ = sqlparser.Preview(sql)
-			_, _ = sqlparser.ExtractMysqlComment(sql)
 			_ = sqlparser.StripLeadingComments(sql)
 		})
 		return vs
@@ -203,10 +202,12 @@ handlers:
       - select data from test %%WHERE%%
       - "%%INSERT%%"
       - select * from u where someValue = %%VALUE%%
-      - select %%COLUMN%% from v
-      - "%%SELECT%% from w"
-      - select a from x where %%SUBQUERY%% = 1
-      - select a from t where b in (%%LIST_OF_VALUES%%)
+      - SELECT %%COLUMN%%, b FROM v
+      - "%%UNION%%"
+      - select a from x where b = (%%SUBQUERY%%)
+      - select a from w where exists(%%SUBQUERY%%) and a = 2
+      - select a from y where b in (%%LIST_OF_VALUES%%)
+      - select a from z where b in (%%VALUE%%, 1, %%LIST_OF_VALUES%%)
   - handler: allowall
 `
 
@@ -225,7 +226,10 @@ handlers:
       - select * from acra_rollback_output where someValue = %%VALUE%%
       - "%%UPDATE%%"
       - "%%DELETE%%"
+      - "%%BEGIN%%"
       - select a from t %%WHERE%%
+      - SELECT * FROM t2 ORDER BY %%COLUMN%%
+      - SELECT a1 FROM t1 GROUP BY a2 HAVING COUNT(%%COLUMN%%) > %%VALUE%%
   - handler: denyall
 `
 
